@@ -2,17 +2,25 @@
   C08 — a parser's result depends only on its own definition and the argv of that call.
 
   Model: `SpVerif.Model.History` (a pool of parsers + the process-global spelling settings as a state
-  machine).  `fresh env spec known argv` is the answer of a freshly built, identically configured parser.
+  machine), following the code AFTER the repairs of D5 (7b430cf: `_preprocessing` re-asserts the parser's
+  own settings) and D6 (1720e54: `--config_path` is registered once).
+  `fresh env spec known argv` is the answer of a freshly built, identically configured parser.
 
   * `FullStatement` — every parse call of every history returns the fresh answer — is kept visible and is
-    REFUTED on the current code in six independent ways, each by a concrete witness history:
-    `d5_witness`, `d6_witness`, `d8_witness`, `d9_witness`, `d9_help_witness`, `d10_witness`,
-    `d10_help_witness`, `lateAdd_witness`  (⇒ `c08_full_false`).
+    still REFUTED on the current code in four independent ways, each by a concrete witness history:
+    `d8_witness`, `d9_witness`, `d9_help_witness`, `d10_witness`, `d10_later_witness`, `d10_help_witness`,
+    `lateAdd_witness`  (⇒ `c08_full_false`).  The former D5 / D6 witness histories now satisfy the
+    statement (`d5_regression`, `d6_regression`).
   * `c08_partial` — for EVERY history (no bound on its length, no hypothesis on it): every parse call that is
-    `Safe` in the state it is made in, on a parser all of whose earlier calls since its construction were
-    `Safe`, returns exactly the fresh answer.  `Safe` is a decidable predicate made of one named clause per
-    open finding.  Proved from the step invariant `InvP` by induction on the list of calls.
-  * `c08_partial_safeHist` — the plain form: if every call of a history is `Safe`, every parse agrees.
+    `safe` in the state it is made in, on a parser all of whose earlier calls since its construction were
+    `safe`, returns exactly the fresh answer.  `safe` is a decidable predicate made of one named clause per
+    open finding (`d8Safe`, `d9Safe`, `d10Safe`, `lateSafe`) and two clauses that are PROOF GAPS, not known
+    defects (`cfgSetupSafe`: a `--config_path` parser whose set-up was not made by a completed parse call —
+    the registered actions are then in another order than in a fresh parser and no permutation lemma is
+    proved; `ctorFilesPristine`: parsers with constructor `config_path=` files are covered on their first call
+    only).  The process-global settings `G` no longer appear in `safe` or in the invariant: no result depends on
+    them any more.
+  * `c08_partial_safeHist` — the plain form: if every call of a history is `safe`, every parse agrees.
 -/
 import SpVerif.Model.History
 namespace SpVerif.C08
@@ -36,15 +44,7 @@ def allAgree (env : Env) : State → List Op → Bool
 /-- the property at full strength: EVERY parse of EVERY history returns what a fresh parser returns -/
 def FullStatement : Prop := ∀ (env : Env) (ops : List Op), allAgree env init ops = true
 
-/-! ### the named exclusions (one clause per open finding) -/
-
-/-- D5: the first `_preprocessing` of a parser must happen while the process-global spelling settings are
-    its own (no other constructor ran in between) -/
-def d5Safe (G : Cfg) (p : PState) : Bool := p.preDone || decide (G = p.spec.cfg)
-
-/-- D6 / D10: a parser with `add_config_path_arg` is only used while pristine (no earlier parse, print_help
-    or failed file load on it) -/
-def cfgPristine (G : Cfg) (p : PState) : Bool := decide (p = newP p.spec) && decide (G = p.spec.cfg)
+/-! ### the named exclusions -/
 
 /-- D8: no `parse_tuple` closure of this parser has been advanced -/
 def d8Safe (p : PState) : Bool := decide (p.counters = some (p.table.map (fun _ => 0)))
@@ -52,35 +52,65 @@ def d8Safe (p : PState) : Bool := decide (p.counters = some (p.table.map (fun _ 
 /-- D9: on an already set-up parser, this argv selects the subgroup alternatives that were frozen -/
 def d9Safe (env : Env) (p : PState) (argv : List Str) : Bool :=
   !p.preDone ||
-  (match chooseAll env p.spec.cfg p.spec.regs argv with
-   | .ok fregs => decide (fregs = p.frozen)
-   | .error _ => false)
+  (match cfgScan env p.spec.cfgPath argv with
+   | .error _ => true
+   | .ok sc =>
+     (match chooseAll env p.spec.cfg p.spec.regs sc.rest with
+      | .ok fregs => decide (fregs = p.frozen)
+      | .error _ => false))
+
+/-- D10: no default pushed by an earlier call is still in the wrappers, and a parser that is already set up is
+    not given config files (they would be read but ignored by the frozen actions) -/
+def d10Safe (env : Env) (p : PState) (argv : List Str) : Bool :=
+  decide (p.fileDefs = []) &&
+  (!p.preDone ||
+   (match cfgScan env p.spec.cfgPath argv with
+    | .error _ => true
+    | .ok sc => sc.names.isEmpty))
 
 /-- late `add_arguments`: nothing was registered after the set-up -/
 def lateSafe (p : PState) : Bool := p.late.isEmpty
 
-def safeParse (env : Env) (G : Cfg) (p : PState) (argv : List Str) : Bool :=
+/-- PROOF GAP (not a known defect): a `--config_path` parser is set up exactly when the option is registered,
+    i.e. its set-up was made by a parse call that got through `_preprocessing` (not by `print_help`, and no
+    parse stopped between registration and set-up) -/
+def cfgSetupSafe (p : PState) : Bool := !p.spec.cfgPath || (p.preDone == p.cfgDefault.isSome)
+
+def safeParse (env : Env) (p : PState) (argv : List Str) : Bool :=
   !p.broken &&
-  (if p.spec.cfgPath then cfgPristine G p
-   else d5Safe G p && d8Safe p && d9Safe env p argv && lateSafe p)
+  (if p.spec.cfgFiles.isEmpty then
+     d8Safe p && d9Safe env p argv && d10Safe env p argv && lateSafe p && cfgSetupSafe p
+   else
+     -- PROOF GAP: parsers with constructor `config_path=` files are covered on their first call only
+     decide (p = newP p.spec))
 
-def safeHelp (G : Cfg) (p : PState) : Bool := !p.broken && d5Safe G p
-
-/-- `Safe` for one call in state `s` -/
+/-- `safe` for one call in state `s`: only parse calls can be unsafe -/
 def safe (env : Env) (s : State) : Op → Bool
-  | .parse i _ argv => (match s.pool i with | some p => safeParse env s.G p argv | none => true)
-  | .printHelp i => (match s.pool i with | some p => safeHelp s.G p | none => true)
+  | .parse i _ argv => (match s.pool i with | some p => safeParse env p argv | none => true)
   | _ => true
 
 /-! ### the invariant -/
 
-/-- per parser: once set up, its action table is the table OF ITS OWN settings for the frozen wrappers -/
-def Core (p : PState) : Prop :=
-  (p.preDone = false ∧ p = newP p.spec) ∨
-  (p.preDone = true ∧ tableFor p.spec.cfg [] [helpAct] p.frozen = some p.table ∧
-    p.frozen.map (·.reg) ++ p.late = p.spec.regs ∧ p.fileDefs = [] ∧ p.cfgRegistered = false)
+/-- the actions a parser has before `_preprocessing`: help, and `--config_path` once registered -/
+def preTbl : Option Val → List Act
+  | none => [helpAct]
+  | some v => [helpAct, cfgAct v]
 
-def InvP (p : PState) : Prop := p.spec.cfgPath = true ∨ p.broken = true ∨ Core p
+/-- the state of a parser that is not set up: nothing but its definition, the pushed defaults and the
+    registration of `--config_path` -/
+def basePre (p : PState) : PState :=
+  { spec := p.spec, table := preTbl p.cfgDefault, counters := some ((preTbl p.cfgDefault).map (fun _ => 0)),
+    fileDefs := p.fileDefs, cfgDefault := p.cfgDefault }
+
+/-- per parser: once set up, its action table is the table of ITS OWN settings for the frozen wrappers -/
+def Core (p : PState) : Prop :=
+  (p.preDone = false ∧ p = basePre p) ∨
+  (p.preDone = true ∧ tableFor p.spec.cfg p.fileDefs (preTbl p.cfgDefault) p.frozen = some p.table ∧
+    p.frozen.map (·.reg) ++ p.late = p.spec.regs)
+
+def InvP (p : PState) : Prop :=
+  p.spec.cfgFiles ≠ [] ∨ p.broken = true ∨
+  (Core p ∧ (p.spec.cfgPath = false → p.cfgDefault = none ∧ p.fileDefs = []))
 
 /-- pool invariant; `t i = true` marks parser `i` as having received an unsafe call since its construction -/
 def InvT (s : State) (t : Nat → Bool) : Prop := ∀ i p, s.pool i = some p → t i = false → InvP p
@@ -142,8 +172,31 @@ theorem tableFor_append {G : Cfg} {defs : FileC} {pre : List Act} {fregs : List 
     · injection h with h; exact ⟨acts, h.symm⟩
     · cases h
 
-theorem preprocess_spec (env : Env) (G : Cfg) (p : PState) (args : List Str) :
-    (preprocess env G p args).st.spec = p.spec := by
+/-- the default shown for `--config_path` plays no role in building the table -/
+theorem tableFor_cfgDefault {G : Cfg} {defs : FileC} {fregs : List FReg} {tbl : List Act} (d v : Val)
+    (h : tableFor G defs [helpAct, cfgAct d] fregs = some tbl) :
+    ∃ acts, tbl = [helpAct, cfgAct d] ++ acts ∧
+      tableFor G defs [helpAct, cfgAct v] fregs = some ([helpAct, cfgAct v] ++ acts) := by
+  unfold tableFor at h ⊢
+  split at h
+  · cases h
+  · rename_i acts hacts
+    split at h
+    · rename_i hok
+      injection h with h
+      refine ⟨acts, h.symm, ?_⟩
+      have : tableOk ([helpAct, cfgAct v] ++ acts) = true := by
+        simpa [tableOk, cfgAct] using hok
+      simpa [hacts] using this
+    · cases h
+
+theorem setCfgDefault_pre (d v : Val) (acts : List Act) :
+    setCfgDefault v ([helpAct, cfgAct d] ++ acts) = [helpAct, cfgAct v] ++ acts := by
+  have h1 : (helpAct.dest = cfgDest) = False := by decide
+  simp [setCfgDefault, h1, cfgAct]
+
+theorem preprocess_spec (env : Env) (p : PState) (args : List Str) :
+    (preprocess env p args).st.spec = p.spec := by
   unfold preprocess
   split
   · rfl
@@ -152,29 +205,41 @@ theorem preprocess_spec (env : Env) (G : Cfg) (p : PState) (args : List Str) :
     · rfl
     · split <;> rfl
 
+theorem preprocess_done {env : Env} {p : PState} (h : p.preDone = true) (args : List Str) :
+    preprocess env p args = .ok p := by
+  unfold preprocess; simp [h]
+
+theorem finishP_spec (env : Env) (p : PState) (known : Bool) (rest : List Str) :
+    (finishP env p known rest).1.spec = p.spec := by
+  unfold finishP
+  have h2 := preprocess_spec env p rest
+  split
+  · rename_i p2 o heq2; rw [heq2] at h2; exact h2
+  · rename_i p2 heq2
+    rw [heq2] at h2
+    split <;> exact h2
+
 theorem cfgPhase_spec (env : Env) (p : PState) (argv : List Str) :
     (cfgPhase env p argv).st.spec = p.spec := by
   unfold cfgPhase
   split
   · rfl
-  · split
+  · rfl
+  · dsimp only
+    split
     · rfl
     · split
       · rfl
-      · rfl
-      · rfl
-      · dsimp only
-        split
+      · split
         · rfl
         · rfl
         · split
           · rfl
-          · split
-            · split <;> rfl
-            · rfl
+          · rfl
+          · split <;> rfl
 
-theorem parseP_spec (env : Env) (G : Cfg) (p : PState) (known : Bool) (argv : List Str) :
-    (parseP env G p known argv).1.spec = p.spec := by
+theorem parseP_spec (env : Env) (p : PState) (known : Bool) (argv : List Str) :
+    (parseP env p known argv).1.spec = p.spec := by
   unfold parseP
   split
   · rfl
@@ -183,34 +248,33 @@ theorem parseP_spec (env : Env) (G : Cfg) (p : PState) (known : Bool) (argv : Li
     · rename_i p1 o heq; rw [heq] at h1; exact h1
     · rename_i p1 rest heq
       rw [heq] at h1
-      have h2 := preprocess_spec env G p1 rest
-      split
-      · rename_i p2 o heq2; rw [heq2] at h2; exact h2.trans h1
-      · rename_i p2 heq2
-        rw [heq2] at h2
-        split <;> exact h2.trans h1
+      exact (finishP_spec env p1 known rest).trans h1
 
-theorem helpP_spec (env : Env) (G : Cfg) (p : PState) : (helpP env G p).1.spec = p.spec := by
+theorem helpP_spec (env : Env) (p : PState) : (helpP env p).1.spec = p.spec := by
   unfold helpP
   split
   · rfl
-  · have h2 := preprocess_spec env G p []
+  · have h2 := preprocess_spec env p []
     split
     · rename_i p2 o heq2; rw [heq2] at h2; exact h2
     · rename_i p2 heq2; rw [heq2] at h2; exact h2
 
-theorem cfgPhase_noCfg {env : Env} {p : PState} (h : p.spec.cfgPath = false) (argv : List Str) :
-    cfgPhase env p argv = .go p argv := by
+/-- without constructor files and without `add_config_path_arg` the prologue does nothing -/
+theorem cfgPhase_plain {env : Env} {p : PState} (hf : p.spec.cfgFiles = []) (hc : p.spec.cfgPath = false)
+    (argv : List Str) : cfgPhase env p argv = .go p argv := by
   unfold cfgPhase
-  simp [h]
+  simp [hf, hc, loadFiles]
 
-/-- `_preprocessing` of a pristine parser under its own settings latched: the frozen table is the table of
-    the parser's own settings -/
-theorem preprocess_new_ok (env : Env) (spec : Spec) (args : List Str) (q : PState)
-    (h : preprocess env spec.cfg (newP spec) args = .ok q) :
-    q.broken = false ∧ q.preDone = true ∧ Core q ∧ q.spec = spec := by
+/-- `_preprocessing` of a parser that is not set up latched: the frozen table is the table of its own settings -/
+theorem preprocess_base_ok (env : Env) (p : PState) (args : List Str) (q : PState)
+    (hb : p = basePre p) (hpre : p.preDone = false) (h : preprocess env p args = .ok q) :
+    q.broken = false ∧ q.preDone = true ∧ Core q ∧ q.spec = p.spec ∧ q.cfgDefault = p.cfgDefault ∧
+      q.fileDefs = p.fileDefs := by
+  have hbr : p.broken = false := by rw [hb]; rfl
+  have htab : p.table = preTbl p.cfgDefault := by rw [hb]; rfl
+  have hlate : p.late = [] := by rw [hb]; rfl
   unfold preprocess at h
-  simp only [newP, Bool.false_eq_true, ↓reduceIte] at h
+  simp only [hpre, Bool.false_eq_true, ↓reduceIte] at h
   split at h
   · cases h
   · cases h
@@ -220,27 +284,100 @@ theorem preprocess_new_ok (env : Env) (spec : Spec) (args : List Str) (q : PStat
     · rename_i tbl htbl
       injection h with h
       subst h
-      refine ⟨rfl, rfl, Or.inr ⟨rfl, htbl, ?_, rfl, rfl⟩, rfl⟩
-      simp only [List.append_nil]
+      rw [htab] at htbl
+      refine ⟨hbr, rfl, Or.inr ⟨rfl, htbl, ?_⟩, rfl, rfl, rfl⟩
+      show fregs.map (·.reg) ++ p.late = p.spec.regs
+      rw [hlate, List.append_nil]
       exact chooseAll_regs hch
 
 /-- … or it stopped (subgroup choice rejected / outside the fragment): nothing was latched -/
-theorem preprocess_new_stop (env : Env) (spec : Spec) (args : List Str) (q : PState) (o : Out)
-    (h : preprocess env spec.cfg (newP spec) args = .stop q o) : InvP q := by
+theorem preprocess_base_stop (env : Env) (p : PState) (args : List Str) (q : PState) (o : Out)
+    (hpre : p.preDone = false) (h : preprocess env p args = .stop q o) :
+    q = p ∨ q = { p with broken := true } := by
   unfold preprocess at h
-  simp only [newP, Bool.false_eq_true, ↓reduceIte] at h
+  rw [if_neg (by rw [hpre]; decide)] at h
   split at h
-  · injection h with h _; subst h; exact Or.inr (Or.inl rfl)
-  · injection h with h _; subst h; exact Or.inr (Or.inr (Or.inl ⟨rfl, rfl⟩))
+  · injection h with h _; exact Or.inr h.symm
+  · injection h with h _; exact Or.inl h.symm
   · split at h
-    · injection h with h _; subst h; exact Or.inr (Or.inl rfl)
+    · injection h with h _; exact Or.inr h.symm
     · cases h
 
 theorem core_of_counters {p : PState} (cs : Option (List Nat)) (h : Core p) (hpre : p.preDone = true) :
     Core { p with counters := cs } := by
-  rcases h with ⟨h1, _⟩ | ⟨h1, h2, h3, h4, h5⟩
+  rcases h with ⟨h1, _⟩ | ⟨h1, h2, h3⟩
   · rw [hpre] at h1; cases h1
-  · exact Or.inr ⟨h1, h2, h3, h4, h5⟩
+  · exact Or.inr ⟨h1, h2, h3⟩
+
+/-- from a parser that is not set up, `_preprocessing` + parse + `_postprocessing` keep the invariant -/
+theorem finishP_base_inv (env : Env) (p : PState) (known : Bool) (rest : List Str)
+    (hb : p = basePre p) (hpre : p.preDone = false)
+    (hconj : p.spec.cfgPath = false → p.cfgDefault = none ∧ p.fileDefs = []) :
+    InvP (finishP env p known rest).1 := by
+  unfold finishP
+  split
+  · rename_i q o heq
+    rcases preprocess_base_stop env p rest q o hpre heq with h | h
+    · subst h; exact Or.inr (Or.inr ⟨Or.inl ⟨hpre, hb⟩, hconj⟩)
+    · subst h; exact Or.inr (Or.inl rfl)
+  · rename_i q heq
+    have key := preprocess_base_ok env p rest q hb hpre heq
+    split
+    · exact Or.inr (Or.inl rfl)
+    · refine Or.inr (Or.inr ⟨core_of_counters _ key.2.2.1 key.2.1, fun hc => ?_⟩)
+      obtain ⟨h1, h2⟩ := hconj (by rw [← key.2.2.2.1]; exact hc)
+      exact ⟨key.2.2.2.2.1.trans h1, key.2.2.2.2.2.trans h2⟩
+
+/-- the prologue on a pristine parser stops (file missing / scan rejected / outside the fragment) … -/
+theorem cfgPhase_new_stop (env : Env) (spec : Spec) (hf : spec.cfgFiles = []) (argv : List Str) (q : PState) (o : Out)
+    (h : cfgPhase env (newP spec) argv = .stop q o) : InvP q := by
+  unfold cfgPhase at h
+  cases hcp : spec.cfgPath
+  · simp [newP, hf, loadFiles, hcp] at h
+  · simp only [newP, hf, loadFiles, hcp, List.isEmpty_nil, Bool.not_true, Bool.false_eq_true, ↓reduceIte] at h
+    have vac : ∀ {P : Prop}, spec.cfgPath = false → P := fun h' => by rw [hcp] at h'; cases h'
+    split at h
+    · injection h with h _; subst h; exact Or.inr (Or.inl rfl)
+    · injection h with h _; subst h
+      exact Or.inr (Or.inr ⟨Or.inl ⟨rfl, rfl⟩, fun hc' => vac hc'⟩)
+    · split at h
+      · injection h with h _; subst h; exact Or.inr (Or.inl rfl)
+      · injection h with h _; subst h
+        exact Or.inr (Or.inr ⟨Or.inl ⟨rfl, rfl⟩, fun hc' => vac hc'⟩)
+      · cases h
+
+/-- … or goes on with a parser that is still not set up, `--config_path` now registered -/
+theorem cfgPhase_new_go (env : Env) (spec : Spec) (hf : spec.cfgFiles = []) (argv : List Str) (q : PState)
+    (rest : List Str) (h : cfgPhase env (newP spec) argv = .go q rest) :
+    q = basePre q ∧ q.preDone = false ∧ (q.spec.cfgPath = false → q.cfgDefault = none ∧ q.fileDefs = []) := by
+  unfold cfgPhase at h
+  cases hcp : spec.cfgPath
+  · simp only [newP, hf, loadFiles, hcp, Bool.not_false, ↓reduceIte] at h
+    injection h with h _; subst h
+    exact ⟨rfl, rfl, fun _ => ⟨rfl, rfl⟩⟩
+  · simp only [newP, hf, loadFiles, hcp, List.isEmpty_nil, Bool.not_true, Bool.false_eq_true, ↓reduceIte] at h
+    have vac : ∀ {P : Prop}, spec.cfgPath = false → P := fun h' => by rw [hcp] at h'; cases h'
+    split at h
+    · cases h
+    · cases h
+    · split at h
+      · cases h
+      · cases h
+      · injection h with h _; subst h
+        exact ⟨rfl, rfl, fun hc' => vac hc'⟩
+
+/-- a parse on a pristine parser keeps the invariant -/
+theorem parseP_new_inv (env : Env) (spec : Spec) (hf : spec.cfgFiles = []) (known : Bool) (argv : List Str) :
+    InvP (parseP env (newP spec) known argv).1 := by
+  unfold parseP
+  have hb : (newP spec).broken = false := rfl
+  simp only [hb, Bool.false_eq_true, ↓reduceIte]
+  split
+  · rename_i q o heq; exact cfgPhase_new_stop env spec hf argv q o heq
+  · rename_i q rest heq
+    obtain ⟨h1, h2, h3⟩ := cfgPhase_new_go env spec hf argv q rest heq
+    exact finishP_base_inv env q known rest h1 h2 h3
+
 
 /-! ### the step lemmas -/
 
@@ -248,154 +385,299 @@ theorem addP_inv (p : PState) (r : Reg) (h : InvP p) : InvP (addP p r).1 := by
   unfold addP
   split
   · exact Or.inr (Or.inl rfl)
-  · rcases h with h | h | h
+  · rcases h with h | h | ⟨h, hconj⟩
     · left; split <;> exact h
     · right; left; split <;> exact h
-    · rcases h with ⟨h1, h2⟩ | ⟨h1, h2, h3, h4, h5⟩
-      · right; right; left
-        obtain ⟨sp, rfl⟩ : ∃ sp, p = newP sp := ⟨_, h2⟩
-        exact ⟨rfl, rfl⟩
-      · right; right; right
-        split
-        · refine ⟨h1, h2, ?_, h4, h5⟩
-          show p.frozen.map (·.reg) ++ (p.late ++ [r]) = p.spec.regs ++ [r]
-          rw [← List.append_assoc, h3]
-        · rename_i hp; exact absurd h1 hp
+    · rcases h with ⟨h1, h2⟩ | ⟨h1, h2, h3⟩
+      · right; right
+        simp only [h1, Bool.false_eq_true, ↓reduceIte]
+        refine ⟨Or.inl ⟨by first | exact h1 | rfl, ?_⟩, hconj⟩
+        obtain ⟨q, rfl⟩ : ∃ q, p = basePre q := ⟨p, h2⟩
+        rfl
+      · right; right
+        simp only [h1, ↓reduceIte]
+        refine ⟨Or.inr ⟨by first | exact h1 | rfl, h2, ?_⟩, hconj⟩
+        show p.frozen.map (·.reg) ++ (p.late ++ [r]) = p.spec.regs ++ [r]
+        rw [← List.append_assoc, h3]
 
-theorem helpP_inv (env : Env) (G : Cfg) (p : PState) (hs : safeHelp G p = true) (h : InvP p) :
-    InvP (helpP env G p).1 := by
-  rcases h with h | h | h
+theorem helpP_inv (env : Env) (p : PState) (h : InvP p) : InvP (helpP env p).1 := by
+  rcases h with h | h | ⟨h, hconj⟩
   · left; rw [helpP_spec]; exact h
-  · simp [safeHelp, h] at hs
-  · unfold helpP
-    simp only [safeHelp, Bool.and_eq_true, Bool.not_eq_eq_eq_not, Bool.not_true] at hs
-    simp only [hs.1, Bool.false_eq_true, ↓reduceIte]
-    rcases h with ⟨h1, h2⟩ | ⟨h1, h2, h3, h4, h5⟩
-    · -- pristine: set-up happens now, under G = own settings
-      have hG : G = p.spec.cfg := by simpa [d5Safe, h1] using hs.2
-      rw [hG, h2]
-      split
-      · rename_i q o heq; exact preprocess_new_stop env p.spec [] q o heq
-      · rename_i q heq; exact Or.inr (Or.inr (preprocess_new_ok env p.spec [] q heq).2.2.1)
-    · have : preprocess env G p [] = .ok p := by unfold preprocess; simp [h1]
-      rw [this]
-      exact Or.inr (Or.inr (Or.inr ⟨h1, h2, h3, h4, h5⟩))
+  · unfold helpP; simp only [h, ↓reduceIte]; exact Or.inr (Or.inl h)
+  · cases hb : p.broken
+    · unfold helpP
+      simp only [hb, Bool.false_eq_true, ↓reduceIte]
+      rcases h with ⟨h1, h2⟩ | ⟨h1, h2, h3⟩
+      · split
+        · rename_i q o heq
+          rcases preprocess_base_stop env p [] q o h1 heq with e | e
+          · subst e; exact Or.inr (Or.inr ⟨Or.inl ⟨h1, h2⟩, hconj⟩)
+          · subst e; exact Or.inr (Or.inl rfl)
+        · rename_i q heq
+          have key := preprocess_base_ok env p [] q h2 h1 heq
+          refine Or.inr (Or.inr ⟨key.2.2.1, fun hc => ?_⟩)
+          obtain ⟨e1, e2⟩ := hconj (by rw [← key.2.2.2.1]; exact hc)
+          exact ⟨key.2.2.2.2.1.trans e1, key.2.2.2.2.2.trans e2⟩
+      · rw [preprocess_done h1]
+        exact Or.inr (Or.inr ⟨Or.inr ⟨h1, h2, h3⟩, hconj⟩)
+    · unfold helpP; simp only [hb, ↓reduceIte]; exact Or.inr (Or.inl hb)
 
-/-- a parse on a pristine parser under its own settings keeps the invariant -/
-theorem parseP_new_inv (env : Env) (spec : Spec) (hc : spec.cfgPath = false) (known : Bool) (argv : List Str) :
-    InvP (parseP env spec.cfg (newP spec) known argv).1 := by
+/-- what a parse does on a set-up parser without `--config_path` -/
+theorem parseP_done_plain (env : Env) (p : PState) (known : Bool) (argv : List Str) (cs : List Nat)
+    (hf : p.spec.cfgFiles = []) (hc : p.spec.cfgPath = false) (hb : p.broken = false) (hpre : p.preDone = true)
+    (hcs : p.counters = some cs) :
+    parseP env p known argv =
+      ({ p with counters := (finishOut env p.table cs p.frozen p.late p.fileDefs known argv).2 },
+       (finishOut env p.table cs p.frozen p.late p.fileDefs known argv).1) := by
   unfold parseP
-  have hb : (newP spec).broken = false := rfl
   simp only [hb, Bool.false_eq_true, ↓reduceIte]
-  rw [cfgPhase_noCfg (p := newP spec) hc argv]
+  rw [cfgPhase_plain hf hc argv]
   dsimp only
-  split
-  · rename_i q o heq; exact preprocess_new_stop env spec argv q o heq
-  · rename_i q heq
-    have key := preprocess_new_ok env spec argv q heq
-    split
-    · exact Or.inr (Or.inl rfl)
-    · exact Or.inr (Or.inr (core_of_counters _ key.2.2.1 key.2.1))
+  unfold finishP
+  rw [preprocess_done hpre]
+  dsimp only
+  rw [hcs]
+  simp [hb]
 
-/-- THE computation: on a set-up parser satisfying the invariant, a safe parse is the fresh parse -/
-theorem parseP_done_fresh (env : Env) (G : Cfg) (p : PState) (known : Bool) (argv : List Str)
-    (hc : p.spec.cfgPath = false) (hb : p.broken = false) (hpre : p.preDone = true)
-    (htbl : tableFor p.spec.cfg [] [helpAct] p.frozen = some p.table)
-    (hdefs : p.fileDefs = []) (hlate : p.late = [])
-    (hcs : p.counters = some (p.table.map (fun _ => 0)))
-    (hch : chooseAll env p.spec.cfg p.spec.regs argv = .ok p.frozen) :
-    (parseP env G p known argv).2 = fresh env p.spec known argv := by
-  have lhs : (parseP env G p known argv).2 =
-      (finishOut env p.table (p.table.map (fun _ => 0)) p.frozen [] [] known argv).1 := by
-    unfold parseP
-    simp only [hb, Bool.false_eq_true, ↓reduceIte]
-    rw [cfgPhase_noCfg hc argv]
-    dsimp only
-    have : preprocess env G p argv = .ok p := by unfold preprocess; simp [hpre]
-    rw [this]
-    dsimp only
-    simp only [hcs, hlate, hdefs]
-  have rhs : fresh env p.spec known argv =
-      (finishOut env p.table (p.table.map (fun _ => 0)) p.frozen [] [] known argv).1 := by
-    obtain ⟨acts, hacts⟩ := tableFor_append htbl
-    unfold fresh parseP
-    have hb' : (newP p.spec).broken = false := rfl
-    simp only [hb', Bool.false_eq_true, ↓reduceIte]
-    rw [cfgPhase_noCfg (p := newP p.spec) hc argv]
-    dsimp only
-    have : preprocess env p.spec.cfg (newP p.spec) argv =
-        .ok { newP p.spec with preDone := true, table := p.table, frozen := p.frozen,
-                               counters := some (p.table.map (fun _ => 0)) } := by
-      unfold preprocess
-      simp only [newP, Bool.false_eq_true, ↓reduceIte, hch, htbl, Option.map_some]
-      rw [hacts]
-      simp
-    rw [this]
-    rfl
-  rw [lhs, rhs]
+/-- the prologue on a set-up `--config_path` parser whose argv names no file: only the shown default changes -/
+theorem cfgPhase_reuse (env : Env) (p : PState) (argv : List Str) (sc : Scan) (d : Val)
+    (hf : p.spec.cfgFiles = []) (hc : p.spec.cfgPath = true) (hd : p.cfgDefault = some d)
+    (hs : cfgScan env true argv = .ok sc) (hn : sc.names = []) :
+    cfgPhase env p argv =
+      .go { p with cfgDefault := some sc.v, table := setCfgDefault sc.v p.table } sc.rest := by
+  unfold cfgPhase
+  simp [hf, hc, hs, hn, hd, loadFiles]
 
-theorem parseP_agrees (env : Env) (G : Cfg) (p : PState) (known : Bool) (argv : List Str)
-    (hs : safeParse env G p argv = true) (h : InvP p) :
-    (parseP env G p known argv).2 = fresh env p.spec known argv := by
+theorem cfgPhase_new_reg (env : Env) (spec : Spec) (argv : List Str) (sc : Scan)
+    (hf : spec.cfgFiles = []) (hc : spec.cfgPath = true)
+    (hs : cfgScan env true argv = .ok sc) (hn : sc.names = []) :
+    cfgPhase env (newP spec) argv =
+      .go { newP spec with cfgDefault := some sc.v, table := [helpAct, cfgAct sc.v], counters := some [0, 0] }
+        sc.rest := by
+  unfold cfgPhase
+  simp [newP, hf, hc, hs, hn, loadFiles]
+
+/-- the scan of the temporary parser rejected argv: same answer whatever the state -/
+theorem cfgPhase_scan_err (env : Env) (p : PState) (argv : List Str) (o : Out)
+    (hf : p.spec.cfgFiles = []) (hc : p.spec.cfgPath = true) (hs : cfgScan env true argv = .error o) :
+    cfgPhase env p argv =
+      .stop (match o with | .unmodelled _ => { p with broken := true } | _ => p) o := by
+  unfold cfgPhase
+  simp only [hf, hc, hs, loadFiles, List.isEmpty_nil, Bool.false_eq_true, ↓reduceIte, Bool.not_true]
+  cases o <;> rfl
+
+theorem parseP_scan_err (env : Env) (p : PState) (known : Bool) (argv : List Str) (o : Out)
+    (hf : p.spec.cfgFiles = []) (hc : p.spec.cfgPath = true) (hb : p.broken = false)
+    (hs : cfgScan env true argv = .error o) :
+    (parseP env p known argv).2 = o ∧
+      ((parseP env p known argv).1 = p ∨ (parseP env p known argv).1 = { p with broken := true }) := by
+  unfold parseP
+  simp only [hb, Bool.false_eq_true, ↓reduceIte]
+  rw [cfgPhase_scan_err env p argv o hf hc hs]
+  dsimp only
+  cases o
+  all_goals first | exact ⟨rfl, Or.inl rfl⟩ | exact ⟨rfl, Or.inr rfl⟩
+
+/-- what a parse does on a set-up `--config_path` parser whose argv names no file -/
+theorem parseP_done_cfg (env : Env) (p : PState) (known : Bool) (argv : List Str) (cs : List Nat) (sc : Scan) (d : Val)
+    (hf : p.spec.cfgFiles = []) (hc : p.spec.cfgPath = true) (hb : p.broken = false) (hpre : p.preDone = true)
+    (hd : p.cfgDefault = some d) (hs : cfgScan env true argv = .ok sc) (hn : sc.names = [])
+    (hcs : p.counters = some cs) :
+    parseP env p known argv =
+      ({ p with cfgDefault := some sc.v, table := setCfgDefault sc.v p.table,
+                counters := (finishOut env (setCfgDefault sc.v p.table) cs p.frozen p.late p.fileDefs known sc.rest).2 },
+       (finishOut env (setCfgDefault sc.v p.table) cs p.frozen p.late p.fileDefs known sc.rest).1) := by
+  unfold parseP
+  simp only [hb, Bool.false_eq_true, ↓reduceIte]
+  rw [cfgPhase_reuse env p argv sc d hf hc hd hs hn]
+  dsimp only
+  unfold finishP
+  rw [preprocess_done (p := { p with cfgDefault := some sc.v, table := setCfgDefault sc.v p.table }) hpre]
+  dsimp only
+  rw [hcs]
+  simp [hb]
+
+/-- the fresh answer, computed: scan, resolve the subgroups, build the table of the parser's own settings, run -/
+theorem fresh_plain (env : Env) (spec : Spec) (known : Bool) (argv : List Str) (fregs : List FReg) (tbl : List Act)
+    (hf : spec.cfgFiles = []) (hc : spec.cfgPath = false)
+    (hch : chooseAll env spec.cfg spec.regs argv = .ok fregs)
+    (htbl : tableFor spec.cfg [] [helpAct] fregs = some tbl) :
+    fresh env spec known argv = (finishOut env tbl (tbl.map (fun _ => 0)) fregs [] [] known argv).1 := by
+  obtain ⟨acts, hacts⟩ := tableFor_append htbl
+  unfold fresh parseP
+  have hb' : (newP spec).broken = false := rfl
+  simp only [hb', Bool.false_eq_true, ↓reduceIte]
+  rw [cfgPhase_plain (p := newP spec) hf hc argv]
+  dsimp only
+  unfold finishP
+  have : preprocess env (newP spec) argv =
+      .ok { newP spec with preDone := true, table := tbl, frozen := fregs,
+                           counters := some (tbl.map (fun _ => 0)) } := by
+    unfold preprocess
+    simp only [newP, Bool.false_eq_true, ↓reduceIte, hch, htbl, Option.map_some]
+    rw [hacts]
+    simp
+  rw [this]
+  rfl
+
+theorem fresh_cfg (env : Env) (spec : Spec) (known : Bool) (argv : List Str) (sc : Scan) (fregs : List FReg)
+    (tbl : List Act) (hf : spec.cfgFiles = []) (hc : spec.cfgPath = true)
+    (hs : cfgScan env true argv = .ok sc) (hn : sc.names = [])
+    (hch : chooseAll env spec.cfg spec.regs sc.rest = .ok fregs)
+    (htbl : tableFor spec.cfg [] [helpAct, cfgAct sc.v] fregs = some tbl) :
+    fresh env spec known argv = (finishOut env tbl (tbl.map (fun _ => 0)) fregs [] [] known sc.rest).1 := by
+  obtain ⟨acts, hacts⟩ := tableFor_append htbl
+  unfold fresh parseP
+  have hb' : (newP spec).broken = false := rfl
+  simp only [hb', Bool.false_eq_true, ↓reduceIte]
+  rw [cfgPhase_new_reg env spec argv sc hf hc hs hn]
+  dsimp only
+  unfold finishP
+  have : preprocess env { newP spec with cfgDefault := some sc.v, table := [helpAct, cfgAct sc.v],
+                                          counters := some [0, 0] } sc.rest =
+      .ok { newP spec with cfgDefault := some sc.v, preDone := true, table := tbl, frozen := fregs,
+                           counters := some (tbl.map (fun _ => 0)) } := by
+    unfold preprocess
+    simp only [newP, Bool.false_eq_true, ↓reduceIte, hch, htbl, Option.map_some]
+    rw [hacts]
+    simp
+  rw [this]
+  rfl
+
+
+/-- what the safety clauses say about a parser (without constructor files) that is not set up: it is pristine -/
+theorem pristine_of_safe {env : Env} {p : PState} {argv : List Str}
+    (hpre : p.preDone = false) (hb : p = basePre p)
+    (hconj : p.spec.cfgPath = false → p.cfgDefault = none ∧ p.fileDefs = [])
+    (h10 : d10Safe env p argv = true) (hset : cfgSetupSafe p = true) : p = newP p.spec := by
+  have hdefs : p.fileDefs = [] := by
+    simp only [d10Safe, Bool.and_eq_true, decide_eq_true_eq] at h10
+    exact h10.1
+  have hnone : p.cfgDefault = none := by
+    cases hc : p.spec.cfgPath
+    · exact (hconj hc).1
+    · simp only [cfgSetupSafe, hc, hpre, Bool.not_true, Bool.false_or, beq_iff_eq] at hset
+      cases hd : p.cfgDefault
+      · rfl
+      · rw [hd] at hset; cases hset
+  calc p = basePre p := hb
+    _ = newP p.spec := by unfold basePre newP; simp [hnone, hdefs, preTbl]
+
+theorem scan_plain (env : Env) (argv : List Str) :
+    cfgScan env false argv = .ok { rest := argv, v := .sc .none, names := [] } := rfl
+
+theorem parseP_agrees (env : Env) (p : PState) (known : Bool) (argv : List Str)
+    (hs : safeParse env p argv = true) (h : InvP p) :
+    (parseP env p known argv).2 = fresh env p.spec known argv := by
   simp only [safeParse, Bool.and_eq_true, Bool.not_eq_eq_eq_not, Bool.not_true] at hs
   obtain ⟨hb, hs⟩ := hs
-  by_cases hc : p.spec.cfgPath = true
-  · -- config-path parser: only the pristine state is safe
-    simp only [hc, ↓reduceIte, cfgPristine, Bool.and_eq_true, decide_eq_true_eq] at hs
-    obtain ⟨hp, hG⟩ := hs
-    rw [hG]
+  cases hfe : p.spec.cfgFiles.isEmpty
+  · -- constructor files: only the pristine state is covered
+    simp only [hfe, Bool.false_eq_true, ↓reduceIte, decide_eq_true_eq] at hs
     unfold fresh
-    rw [← hp]
-  · have hc' : p.spec.cfgPath = false := by simpa using hc
-    simp only [hc', Bool.false_eq_true, ↓reduceIte, Bool.and_eq_true] at hs
-    obtain ⟨⟨⟨h5, h8⟩, h9⟩, hl⟩ := hs
-    rcases h with h | h | h
-    · exact absurd h hc
+    rw [← hs]
+  · have hf : p.spec.cfgFiles = [] := List.isEmpty_iff.mp hfe
+    simp only [hfe, ↓reduceIte, Bool.and_eq_true] at hs
+    obtain ⟨⟨⟨⟨h8, h9⟩, h10⟩, hl⟩, hset⟩ := hs
+    rcases h with h | h | ⟨h, hconj⟩
+    · exact absurd hf h
     · rw [hb] at h; cases h
-    · rcases h with ⟨h1, h2⟩ | ⟨h1, h2, _, h4, _⟩
-      · have hG : G = p.spec.cfg := by simpa [d5Safe, h1] using h5
-        rw [hG]
+    · rcases h with ⟨h1, h2⟩ | ⟨h1, h2, _⟩
+      · have hp := pristine_of_safe h1 h2 hconj h10 hset
         unfold fresh
-        rw [← h2]
+        rw [← hp]
       · have hcs : p.counters = some (p.table.map (fun _ => 0)) := by simpa [d8Safe] using h8
         have hlate : p.late = [] := by simpa [lateSafe] using hl
-        have hch : chooseAll env p.spec.cfg p.spec.regs argv = .ok p.frozen := by
-          simp only [d9Safe, h1, Bool.not_true, Bool.false_or] at h9
-          split at h9
-          · rename_i fregs heq
-            rw [heq]
-            have : fregs = p.frozen := by simpa using h9
-            rw [this]
-          · cases h9
-        exact parseP_done_fresh env G p known argv hc' hb h1 h2 h4 hlate hcs hch
+        have hdefs : p.fileDefs = [] := by
+          simp only [d10Safe, Bool.and_eq_true, decide_eq_true_eq] at h10
+          exact h10.1
+        cases hc : p.spec.cfgPath
+        · -- no --config_path
+          obtain ⟨hnone, _⟩ := hconj hc
+          rw [hdefs, hnone] at h2
+          have hch : chooseAll env p.spec.cfg p.spec.regs argv = .ok p.frozen := by
+            simp only [d9Safe, h1, Bool.not_true, Bool.false_or, hc, scan_plain] at h9
+            split at h9
+            · rename_i fregs heq
+              rw [heq]
+              have : fregs = p.frozen := by simpa using h9
+              rw [this]
+            · cases h9
+          rw [parseP_done_plain env p known argv _ hf hc hb h1 hcs,
+              fresh_plain env p.spec known argv p.frozen p.table hf hc hch h2, hlate, hdefs]
+        · -- --config_path parser, set up by an earlier parse
+          have hsome : p.cfgDefault.isSome = true := by
+            simpa [cfgSetupSafe, hc, h1] using hset
+          obtain ⟨d, hd⟩ := Option.isSome_iff_exists.mp hsome
+          cases hsc : cfgScan env true argv with
+          | error o =>
+            rw [(parseP_scan_err env p known argv o hf hc hb hsc).1]
+            unfold fresh
+            rw [(parseP_scan_err env (newP p.spec) known argv o hf hc rfl hsc).1]
+          | ok sc =>
+            have hn : sc.names = [] := by
+              simp only [d10Safe, h1, hc, hsc, Bool.not_true, Bool.false_or, Bool.and_eq_true] at h10
+              exact List.isEmpty_iff.mp h10.2
+            have hch : chooseAll env p.spec.cfg p.spec.regs sc.rest = .ok p.frozen := by
+              simp only [d9Safe, h1, Bool.not_true, Bool.false_or, hc, hsc] at h9
+              split at h9
+              · rename_i fregs heq
+                rw [heq]
+                have : fregs = p.frozen := by simpa using h9
+                rw [this]
+              · cases h9
+            rw [hdefs, hd] at h2
+            obtain ⟨acts, htab, htbl⟩ := tableFor_cfgDefault d sc.v h2
+            rw [parseP_done_cfg env p known argv _ sc d hf hc hb h1 hd hsc hn hcs,
+                fresh_cfg env p.spec known argv sc p.frozen _ hf hc hsc hn hch htbl, hlate, hdefs, htab,
+                setCfgDefault_pre]
+            simp
 
-theorem parseP_inv (env : Env) (G : Cfg) (p : PState) (known : Bool) (argv : List Str)
-    (hs : safeParse env G p argv = true) (h : InvP p) : InvP (parseP env G p known argv).1 := by
-  rcases h with h | h | h
-  · left; rw [parseP_spec]; exact h
-  · simp [safeParse, h] at hs
-  · simp only [safeParse, Bool.and_eq_true, Bool.not_eq_eq_eq_not, Bool.not_true] at hs
-    obtain ⟨hb, hs⟩ := hs
-    by_cases hc : p.spec.cfgPath = true
-    · left; rw [parseP_spec]; exact hc
-    · have hc' : p.spec.cfgPath = false := by simpa using hc
-      simp only [hc', Bool.false_eq_true, ↓reduceIte, Bool.and_eq_true] at hs
-      obtain ⟨⟨⟨h5, _⟩, _⟩, _⟩ := hs
-      rcases h with ⟨h1, h2⟩ | ⟨h1, h2, h3, h4, h5'⟩
-      · have hG : G = p.spec.cfg := by simpa [d5Safe, h1] using h5
-        have key := parseP_new_inv env p.spec hc' known argv
-        rw [hG, h2]
-        exact key
-      · unfold parseP
-        simp only [hb, Bool.false_eq_true, ↓reduceIte]
-        rw [cfgPhase_noCfg hc' argv]
-        dsimp only
-        have : preprocess env G p argv = .ok p := by unfold preprocess; simp [h1]
-        rw [this]
-        dsimp only
-        split
-        · exact Or.inr (Or.inl rfl)
-        · exact Or.inr (Or.inr (core_of_counters _ (Or.inr ⟨h1, h2, h3, h4, h5'⟩) h1))
+theorem parseP_inv (env : Env) (p : PState) (known : Bool) (argv : List Str)
+    (hs : safeParse env p argv = true) (h : InvP p) : InvP (parseP env p known argv).1 := by
+  simp only [safeParse, Bool.and_eq_true, Bool.not_eq_eq_eq_not, Bool.not_true] at hs
+  obtain ⟨hb, hs⟩ := hs
+  cases hfe : p.spec.cfgFiles.isEmpty
+  · left
+    rw [parseP_spec]
+    intro hnil
+    rw [hnil] at hfe
+    cases hfe
+  · have hf : p.spec.cfgFiles = [] := List.isEmpty_iff.mp hfe
+    simp only [hfe, ↓reduceIte, Bool.and_eq_true] at hs
+    obtain ⟨⟨⟨⟨h8, _⟩, h10⟩, _⟩, hset⟩ := hs
+    rcases h with h | h | ⟨h, hconj⟩
+    · exact absurd hf h
+    · rw [hb] at h; cases h
+    · rcases h with ⟨h1, h2⟩ | ⟨h1, h2, h3⟩
+      · have hp := pristine_of_safe h1 h2 hconj h10 hset
+        rw [hp]
+        exact parseP_new_inv env p.spec hf known argv
+      · have hcs : p.counters = some (p.table.map (fun _ => 0)) := by simpa [d8Safe] using h8
+        cases hc : p.spec.cfgPath
+        · rw [parseP_done_plain env p known argv _ hf hc hb h1 hcs]
+          exact Or.inr (Or.inr ⟨core_of_counters _ (Or.inr ⟨h1, h2, h3⟩) h1, hconj⟩)
+        · have hsome : p.cfgDefault.isSome = true := by
+            simpa [cfgSetupSafe, hc, h1] using hset
+          obtain ⟨d, hd⟩ := Option.isSome_iff_exists.mp hsome
+          cases hsc : cfgScan env true argv with
+          | error o =>
+            rcases (parseP_scan_err env p known argv o hf hc hb hsc).2 with e | e
+            · rw [e]; exact Or.inr (Or.inr ⟨Or.inr ⟨h1, h2, h3⟩, hconj⟩)
+            · rw [e]; exact Or.inr (Or.inl rfl)
+          | ok sc =>
+            have hn : sc.names = [] := by
+              simp only [d10Safe, h1, hc, hsc, Bool.not_true, Bool.false_or, Bool.and_eq_true] at h10
+              exact List.isEmpty_iff.mp h10.2
+            rw [hd] at h2
+            obtain ⟨acts, htab, htbl⟩ := tableFor_cfgDefault d sc.v h2
+            rw [parseP_done_cfg env p known argv _ sc d hf hc hb h1 hd hsc hn hcs]
+            refine Or.inr (Or.inr ⟨Or.inr ⟨h1, ?_, h3⟩, fun hc' => ?_⟩)
+            · show tableFor p.spec.cfg p.fileDefs (preTbl (some sc.v)) p.frozen = some (setCfgDefault sc.v p.table)
+              rw [htab, setCfgDefault_pre]
+              exact htbl
+            · exact absurd (show p.spec.cfgPath = false from hc') (by rw [hc]; decide)
+
 
 /-! ### lifting to the pool and to all histories -/
 
@@ -411,14 +693,14 @@ theorem step_inv (env : Env) (s : State) (t : Nat → Bool) (op : Op) (h : InvT 
     InvT (step env s op).1 (taintStep env s t op) := by
   intro j q hq ht
   cases op with
-  | construct i cfg cp rs =>
+  | construct i cfg cp fs =>
     simp only [step] at hq
     by_cases hji : j = i
     · subst hji
       rw [setPool_same] at hq
       injection hq with hq
       subst hq
-      exact Or.inr (Or.inr (Or.inl ⟨rfl, rfl⟩))
+      exact Or.inr (Or.inr ⟨Or.inl ⟨rfl, rfl⟩, fun _ => ⟨rfl, rfl⟩⟩)
     · rw [setPool_other _ _ hji] at hq
       simp only [taintStep, hji, ↓reduceIte] at ht
       exact h j q hq ht
@@ -451,11 +733,11 @@ theorem step_inv (env : Env) (s : State) (t : Nat → Bool) (op : Op) (h : InvT 
         rw [setPool_same] at hq
         injection hq with hq
         subst hq
-        cases hsafe : safeParse env s.G p argv with
+        cases hsafe : safeParse env p argv with
         | false => simp [taintStep, safe, hp, hsafe, Op.idx] at ht
         | true =>
           simp only [taintStep, safe, hp, hsafe, ↓reduceIte] at ht
-          exact parseP_inv env s.G p known argv hsafe (h j p hp ht)
+          exact parseP_inv env p known argv hsafe (h j p hp ht)
       · rw [setPool_other _ _ hji] at hq
         have ht' : t j = false := by
           simp only [taintStep] at ht
@@ -465,11 +747,9 @@ theorem step_inv (env : Env) (s : State) (t : Nat → Bool) (op : Op) (h : InvT 
         exact h j q hq ht'
   | printHelp i =>
     simp only [step] at hq
+    simp only [taintStep, safe, ↓reduceIte] at ht
     cases hp : s.pool i with
-    | none =>
-      simp only [hp] at hq
-      simp only [taintStep, safe, hp, ↓reduceIte] at ht
-      exact h j q hq ht
+    | none => simp only [hp] at hq; exact h j q hq ht
     | some p =>
       simp only [hp] at hq
       by_cases hji : j = i
@@ -477,18 +757,9 @@ theorem step_inv (env : Env) (s : State) (t : Nat → Bool) (op : Op) (h : InvT 
         rw [setPool_same] at hq
         injection hq with hq
         subst hq
-        cases hsafe : safeHelp s.G p with
-        | false => simp [taintStep, safe, hp, hsafe, Op.idx] at ht
-        | true =>
-          simp only [taintStep, safe, hp, hsafe, ↓reduceIte] at ht
-          exact helpP_inv env s.G p hsafe (h j p hp ht)
+        exact helpP_inv env p (h j p hp ht)
       · rw [setPool_other _ _ hji] at hq
-        have ht' : t j = false := by
-          simp only [taintStep] at ht
-          split at ht
-          · exact ht
-          · simpa [Op.idx, hji] using ht
-        exact h j q hq ht'
+        exact h j q hq ht
   | formatHelp i =>
     simp only [taintStep, safe, ↓reduceIte] at ht
     simp only [step] at hq
@@ -506,8 +777,8 @@ theorem step_agrees (env : Env) (s : State) (t : Nat → Bool) (op : Op) (h : In
     | some p =>
       simp only [safe, hp] at hs
       simp only [agrees, step, hp, decide_eq_true_eq]
-      exact parseP_agrees env s.G p known argv hs (h i p hp ht)
-  | construct i cfg cp rs => rfl
+      exact parseP_agrees env p known argv hs (h i p hp ht)
+  | construct i cfg cp fs => rfl
   | add i r => rfl
   | printHelp i => rfl
   | formatHelp i => rfl
@@ -548,10 +819,19 @@ theorem c08_partial_safeHist (env : Env) : ∀ (ops : List Op) (s : State), InvT
     rw [taintStep_safe hs.1] at this
     exact c08_partial_safeHist env ops _ this hs.2
 
-/-! ### witnesses: the full statement is false on the current code, in six independent ways -/
+/-- the process-global settings play no role any more: a parse answers the same whatever they are (D5 repaired) -/
+theorem parse_out_indep_of_globals (env : Env) (G G' : Cfg) (pool : Nat → Option PState) (i : Nat) (known : Bool)
+    (argv : List Str) :
+    (step env { G := G, pool := pool } (.parse i known argv)).2 =
+      (step env { G := G', pool := pool } (.parse i known argv)).2 := by
+  simp only [step]
+  cases pool i <;> rfl
+
+/-! ### witnesses: the full statement is still false on the current code -/
 
 def cU : Cfg := { dash := .underscore, gen := .flat, nest := .default }
 def cD : Cfg := { dash := .dashOnly, gen := .flat, nest := .default }
+def cW : Cfg := { dash := .underscore, gen := .flat, nest := .withoutRoot }
 
 def fInt (n : String) (d : Int) : FieldSpec :=
   { name := n.toList, ty := { inner := .sc (.base .int), optional := false }, default := .value (.sc (.int d)) }
@@ -574,20 +854,22 @@ def clsS : ClassSpec :=
     sub := some { name := "mod".toList, default := "x".toList,
                   alts := [{ key := "x".toList, cls := "X".toList, fields := [fInt "xv" 1] },
                            { key := "y".toList, cls := "Y".toList, fields := [fInt "yv" 2] }] } }
+/-- `class K: tag: str = field(default="0", type=int)` -/
+def clsK : ClassSpec :=
+  { name := "K".toList, sub := none, custom := [("tag".toList, .int)],
+    fields := [{ name := "tag".toList, ty := { inner := .sc (.base .str), optional := false },
+                 default := .value (.sc (.str "0".toList)) }] }
 
 def env0 : Env :=
   { fenv := [("2.5".toList, some "2.5".toList)],
-    files := [("f0.json".toList, some [("a".toList, [("a_b".toList, .sc (.int 7))])])] }
+    files := [("f0.json".toList, some (.rooted [("a".toList, [("a_b".toList, .sc (.int 7))])])),
+              ("r0.json".toList, some (.rootless [("a_b".toList, .sc (.int 13))]))] }
 
-def mkP (i : Nat) (c : Cfg) (cls : ClassSpec) (dest : String) (cp := false) (rs := false) : List Op :=
-  [.construct i c cp rs, .add i { dest := dest.toList, cls := cls }]
+def mkP (i : Nat) (c : Cfg) (cls : ClassSpec) (dest : String) (cp := false) (fs : List String := []) : List Op :=
+  [.construct i c cp (fs.map String.toList), .add i { dest := dest.toList, cls := cls }]
 
 def argvOf (l : List String) : List Str := l.map String.toList
 
-/-- D5: `p0 = ArgumentParser(DASH)`, `p1 = ArgumentParser(UNDERSCORE)`, then `p0.parse_args(["--a-b","3"])` -/
-def d5Hist : List Op := mkP 0 cD clsA "a" ++ [.construct 1 cU false false, .parse 0 false (argvOf ["--a-b", "3"])]
-/-- D6: `add_config_path_arg=True`, two `parse_args([])` -/
-def d6Hist : List Op := mkP 0 cU clsA "a" (cp := true) ++ [.parse 0 false [], .parse 0 false []]
 /-- D8: heterogeneous tuple parsed twice on the same parser -/
 def d8Hist : List Op :=
   mkP 0 cU clsT "t" ++ [.parse 0 false (argvOf ["--tup", "4", "b", "2.5"]), .parse 0 false (argvOf ["--tup", "4", "b", "2.5"])]
@@ -596,33 +878,28 @@ def d9Hist : List Op :=
   mkP 0 cU clsS "s" ++ [.parse 0 false (argvOf ["--mod", "y"]), .parse 0 false (argvOf ["--mod", "x"])]
 /-- D9 through `print_help`: the default alternative is frozen -/
 def d9HelpHist : List Op := mkP 0 cU clsS "s" ++ [.printHelp 0, .parse 0 false (argvOf ["--mod", "y"])]
-/-- D10 (with `conflict_handler="resolve"`, which keeps D6 out of the way): the first call's file persists -/
+/-- D10 (reachable since D6 is repaired): the file of the first call persists into the second -/
 def d10Hist : List Op :=
-  mkP 0 cU clsA "a" (cp := true) (rs := true) ++
-    [.parse 0 false (argvOf ["--config_path", "f0.json"]), .parse 0 false []]
-/-- D10 through `print_help`: the actions are frozen before the file is read, the file is ignored -/
+  mkP 0 cU clsA "a" (cp := true) ++ [.parse 0 false (argvOf ["--config_path", "f0.json"]), .parse 0 false []]
+/-- D10, the other way round: a file given to a parser that is already set up is read but ignored -/
+def d10LaterHist : List Op :=
+  mkP 0 cU clsA "a" (cp := true) ++ [.parse 0 false [], .parse 0 false (argvOf ["--config_path", "f0.json"])]
+/-- D10 through `print_help`: the actions are frozen before the file is read -/
 def d10HelpHist : List Op :=
   mkP 0 cU clsA "a" (cp := true) ++ [.printHelp 0, .parse 0 false (argvOf ["--config_path", "f0.json"])]
 /-- `add_arguments` after the first parse: accepted, never turned into options -/
 def lateAddHist : List Op :=
   mkP 0 cU clsA "a" ++ [.parse 0 false [], .add 0 { dest := "b".toList, cls := clsB }, .parse 0 false (argvOf ["--lr", "2"])]
 
-theorem d5_witness : allAgree env0 init d5Hist = false := by decide
-theorem d6_witness : allAgree env0 init d6Hist = false := by decide
 theorem d8_witness : allAgree env0 init d8Hist = false := by decide
 theorem d9_witness : allAgree env0 init d9Hist = false := by decide
 theorem d9_help_witness : allAgree env0 init d9HelpHist = false := by decide
 theorem d10_witness : allAgree env0 init d10Hist = false := by decide
+theorem d10_later_witness : allAgree env0 init d10LaterHist = false := by decide
 theorem d10_help_witness : allAgree env0 init d10HelpHist = false := by decide
 theorem lateAdd_witness : allAgree env0 init lateAddHist = false := by decide
 
 /-- the model reproduces the observed wrong answers, not just "some difference" -/
-example : (runHist env0 init d5Hist).getLast? = some (.exit 2 .unrecognized) := by decide
-example : fresh env0 { cfg := cD, cfgPath := false, resolve := false, regs := [{ dest := "a".toList, cls := clsA }] }
-    false (argvOf ["--a-b", "3"]) =
-    .ok [{ dest := "a".toList, cls := "A".toList, fields := [("a_b".toList, .sc (.int 3))], sub := none }] [] none [] := by
-  decide
-example : (runHist env0 init d6Hist).getLast? = some (.raise "ArgumentError".toList) := by decide
 example : (runHist env0 init d8Hist).getLast? = some (.raise "IndexError".toList) := by decide
 example : (runHist env0 init d9Hist).getLast? =
     some (.ok [{ dest := "s".toList, cls := "S".toList, fields := [],
@@ -631,35 +908,63 @@ example : (runHist env0 init d9Hist).getLast? =
 example : (runHist env0 init d10Hist).getLast? =
     some (.ok [{ dest := "a".toList, cls := "A".toList, fields := [("a_b".toList, .sc (.int 7))], sub := none }]
               [] (some (.sc .none)) []) := by decide
+example : (runHist env0 init d10LaterHist).getLast? =
+    some (.ok [{ dest := "a".toList, cls := "A".toList, fields := [("a_b".toList, .sc (.int 1))], sub := none }]
+              [] (some (.list [.path "f0.json".toList])) []) := by decide
 
 /-- **the full statement does not hold for the current code** -/
 theorem c08_full_false : ¬ FullStatement := by
   intro h
-  have := h env0 d5Hist
-  rw [d5_witness] at this
+  have := h env0 d9Hist
+  rw [d9_witness] at this
   cases this
 
-/-- each witness history contains a call that `Safe` excludes — the exclusions are exactly where the failures are -/
-example : safeHist env0 init d5Hist = false := by decide
-example : safeHist env0 init d6Hist = false := by decide
+/-- each witness history contains a call that `safe` excludes — the exclusions are where the failures are -/
 example : safeHist env0 init d8Hist = false := by decide
 example : safeHist env0 init d9Hist = false := by decide
 example : safeHist env0 init d9HelpHist = false := by decide
 example : safeHist env0 init d10Hist = false := by decide
+example : safeHist env0 init d10LaterHist = false := by decide
 example : safeHist env0 init d10HelpHist = false := by decide
 example : safeHist env0 init lateAddHist = false := by decide
+
+/-! ### regression examples: the repaired D5 / D6 histories now satisfy the statement, and are `safe` -/
+
+/-- D5 (repaired by 7b430cf): `p0 = ArgumentParser(DASH)`, `p1 = ArgumentParser(UNDERSCORE)`, then
+    `p0.parse_args(["--a-b","3"])` is accepted: p0 spells its options its own way -/
+def d5Hist : List Op := mkP 0 cD clsA "a" ++ [.construct 1 cU false [], .parse 0 false (argvOf ["--a-b", "3"])]
+/-- D6 (repaired by 1720e54): `add_config_path_arg=True`, two `parse_args([])` -/
+def d6Hist : List Op := mkP 0 cU clsA "a" (cp := true) ++ [.parse 0 false [], .parse 0 false []]
+
+theorem d5_regression : allAgree env0 init d5Hist = true ∧ safeHist env0 init d5Hist = true := by decide
+theorem d6_regression : allAgree env0 init d6Hist = true ∧ safeHist env0 init d6Hist = true := by decide
+
+example : (runHist env0 init d5Hist).getLast? =
+    some (.ok [{ dest := "a".toList, cls := "A".toList, fields := [("a_b".toList, .sc (.int 3))], sub := none }] [] none []) := by
+  decide
+example : (runHist env0 init d6Hist).getLast? =
+    some (.ok [{ dest := "a".toList, cls := "A".toList, fields := [("a_b".toList, .sc (.int 1))], sub := none }]
+              [] (some (.sc .none)) []) := by decide
+/-- the class attributes follow the constructors and — since the repair — the set-up of a parser -/
+example : runG env0 init d5Hist = [cD, cD, cU, cD] := by decide
 
 /-! ### the hypotheses of `c08_partial_safeHist` are satisfiable by non-trivial histories -/
 
 /-- three parsers with three different spellings, interleaved; re-parses (valid, invalid, help) on set-up parsers; a
-    subgroup parser re-parsed with the same choice; a tuple parser parsed once; a config-path parser parsed once -/
+    subgroup parser whose first parse is rejected by the choice parser, then re-parsed twice with the same choice; a
+    tuple parser parsed once; a `--config_path` parser parsed three times (no files); two parsers over the same
+    dataclass with a custom `type=`; a constructor-file parser in the root-less layout parsed once -/
 def demoHist : List Op :=
   mkP 0 cD clsA "a" ++ [.parse 0 false (argvOf ["--a-b", "3"])] ++
-  mkP 1 cU clsS "s" ++ [.parse 1 false (argvOf ["--mod", "y", "--yv", "5"]), .parse 0 false (argvOf ["--a-b", "4"]),
-    .printHelp 0, .parse 1 true (argvOf ["--mod", "y", "--zzz"]), .parse 0 false (argvOf ["--a_b", "4"]),
-    .parse 0 false (argvOf ["-h"]), .formatHelp 1] ++
+  mkP 1 cU clsS "s" ++ [.parse 1 false (argvOf ["--mod", "z"]), .parse 1 false (argvOf ["--mod", "y", "--yv", "5"]),
+    .parse 0 false (argvOf ["--a-b", "4"]), .printHelp 0, .parse 1 true (argvOf ["--mod", "y", "--zzz"]),
+    .parse 0 false (argvOf ["--a_b", "4"]), .parse 0 false (argvOf ["-h"]), .formatHelp 1] ++
   mkP 2 cU clsT "t" ++ [.parse 2 false (argvOf ["--tup", "4", "b", "2.5"]), .parse 0 false []] ++
-  mkP 1 cU clsA "a" (cp := true) ++ [.parse 1 false (argvOf ["--config_path", "f0.json"]), .parse 0 false (argvOf ["--a-b=9"])]
+  mkP 1 cU clsA "a" (cp := true) ++ [.parse 1 false (argvOf ["--a_b", "2"]), .parse 1 false [],
+    .parse 1 false (argvOf ["--a_b=9"])] ++
+  mkP 2 cU clsK "k" ++ [.parse 2 false (argvOf ["--tag", "12"])] ++
+  mkP 1 cD clsK "k" ++ [.parse 1 false (argvOf ["--tag", "12"]), .parse 2 false (argvOf ["--tag", "abc"])] ++
+  mkP 2 cW clsA "a" (fs := ["r0.json"]) ++ [.parse 2 false [], .parse 0 false (argvOf ["--a-b=9"])]
 
 example : safeHist env0 init demoHist = true := by decide
 example : allAgree env0 init demoHist = true :=
@@ -668,9 +973,10 @@ example : (runHist env0 init demoHist).getLast? =
     some (.ok [{ dest := "a".toList, cls := "A".toList, fields := [("a_b".toList, .sc (.int 9))], sub := none }] [] none []) := by
   decide
 
-/-- the monitored form also speaks about histories that DO contain unsafe calls: here parser 1 is abused (D8) and
-    the theorem still covers every call on parser 0 -/
+/-- the monitored form also speaks about histories that DO contain unsafe calls: here parser 0 is abused (D8) and
+    the theorem still covers every call on parser 1 -/
 example : Monitored env0 init (fun _ => false) (d8Hist ++ mkP 1 cD clsA "a" ++ [.parse 1 false (argvOf ["--a-b", "3"])]) :=
   c08_partial_init env0 _
+
 
 end SpVerif.C08
